@@ -9,7 +9,6 @@ NA = {
     "C03": "sample-exact equality with an independent encoder is a value-level statement over all sample values and tree shapes; no clause of it is visible in the shape of the code",
     "C04": "round-trip equality over all codes and sequences is value-level; its one structural fact (ANS state mask vs table size) is a memory-safety obligation checked under C02",
     "C12": "agreement of two numeric pipelines (and SIMD vs scalar) over all samples; no structural necessary condition a realistic regression would break",
-    "C17": "byte equality of a re-encoded JPEG over all inputs is value-level throughout",
     "C19": "numerical tolerance statements over real-valued functions",
 }
 
@@ -114,6 +113,16 @@ CHECKS = {
              "Does not decide any numerical property of the kernels.",
         note="kernel families are recognised by name after stripping the architecture suffix",
         ref="DESIGN.md section 3 C16"),
+    "C17": dict(
+        technique="interval abstract interpretation of reconstruction-header fields to panicking operations; validation-check reconstruction from MIR against a reviewed table; per-variant constant-propagating path rules for the status query",
+        text="Claimed narrowly: the two clauses visible in the shape of the code. (1) jpeg_reconstruction_status reports Available only on the "
+             "Data state of the jbrd box and after each piece of metadata the header expects (ICC, Exif, XMP) has been probed; "
+             "reconstruct_jpeg refuses incomplete box states and a missing frame before unwrapping. (2) Hostile reconstruction data is an "
+             "error, not a panic, for the class decided: the consistency checks exist as compare->error, and no header field with a "
+             "width-implied range reaches an overflow-checked operation, shift, division or fixed-size array index it can break "
+             "(found and repaired D9-D11). Does not decide byte-exactness of the reconstructed JPEG.",
+        note="interval domain only: panics depending on relations between header vectors (table index vs table count, is_last markers, Huffman code shapes) are not decided",
+        ref="DESIGN.md section 8.8"),
     "C18": dict(
         technique="validation-check reconstruction from MIR against a reviewed table of the ICC stream decoder's consistency conditions",
         text="Claimed narrowly: the rejection clause (inconsistent encodings are rejected with an error). 24 consistency conditions of "
